@@ -479,6 +479,13 @@ func rulePLexProgress(p *Program, r *Reporter) {
 									progressed = true
 								}
 							}
+							// a call that advances a cursor it is given by address (c.read()): the callee stores to a field
+							// through that pointer
+							if c, ok := in.(*ssa.Call); ok {
+								if cf := calleeOf(&c.Call); cf != nil && p.IsRepo(cf) && storesThroughParam(cf) {
+									progressed = true
+								}
+							}
 						}
 					}
 				}
@@ -493,6 +500,32 @@ func rulePLexProgress(p *Program, r *Reporter) {
 			}
 		}
 	}
+}
+
+// storesThroughParam: the function stores to a field reached through one of its pointer parameters (its receiver).
+func storesThroughParam(fn *ssa.Function) bool {
+	for _, b := range fn.Blocks {
+		for _, in := range b.Instrs {
+			st, ok := in.(*ssa.Store)
+			if !ok {
+				continue
+			}
+			if fa, ok := st.Addr.(*ssa.FieldAddr); ok {
+				base := fa.X
+				for {
+					if f2, ok := base.(*ssa.FieldAddr); ok {
+						base = f2.X
+						continue
+					}
+					break
+				}
+				if _, isParam := base.(*ssa.Parameter); isParam {
+					return true
+				}
+			}
+		}
+	}
+	return false
 }
 
 // changedSince: v differs from phi on every path (it is phi plus something, or a reslice of it).
